@@ -178,6 +178,15 @@ PROPERTIES.update({
     },
 })
 
+# every property of the solver quantifies over calls that may be handed a result cache: the 2-safety obligations
+# rel.equal-keys-* (contracts/cachec.py: two footprint requests with equal lookup keys have equal spectra, crops and grids)
+# carry the statement proved for the uncached solve over to a solve served through a cache
+for _k in ("C01", "C03", "C04", "C05", "C06", "C07", "C10", "C11"):
+    if "cachec" not in PROPERTIES[_k]["modules"]:
+        PROPERTIES[_k]["modules"].append("cachec")
+        PROPERTIES[_k]["explanation"] += (" With a cache handed to the solve, two footprint requests whose lookup keys are equal have equal spectra, "
+                                         "crops and grids (2-safety obligations rel.equal-keys-* over two symbolic runs of S), so a request is never served "
+                                         "the result of a different request; the bounded suite repeats every 7th case with a cache attached after near-twin requests.")
 for _k, _p in PROPERTIES.items():
     _p.setdefault("np_conformance", _k in ("C01", "C02", "C03", "C04", "C05", "C06", "C07", "C10", "C11", "C12", "C15", "C18", "C19", "C20"))
 for _k, _p in PROPERTIES.items():
